@@ -158,7 +158,7 @@ CHECKS["C02"] = {
     "note": "Multi-file level: NOT proved — RaftLogManager (rollover, LogRange catalogue, split_off, snapshot pointer files, batch replication) and FileStore travel through "
             "Addr::send and actix future chains; a BOUNDED stand-in runs on every check (logs laid down over 2 or 3 files exactly as switch_new_log leaves them; the real "
             "RaftLogManager compared with a model list for reads across files, truncation at 4 cut points + appends, restart) — labelled bounded; its truncation scenarios FAIL on the "
-            "unchanged tree: KNOWN FINDING S18 (see known_findings.json; also relevant here because the re-appended entries are lost at restart). load_record (same shape as read_records, dyn loader) not under contract. A-SAMEFILE: the two handles on one path are modelled as independent "
+            "unchanged tree: KNOWN FINDING S18 (see known_findings.json; also relevant here because the re-appended entries are lost at restart). load_record (the start-up replay reader) IS under contract since the build phase: the trait-object loader is replaced by a glue type that records what it is handed (T17/T18); the loader is handed exactly the records of the range that decode, in log order, each once (a record whose payload does not decode is skipped silently by the real code — pb_decodes is an uninterpreted function of the bytes). A-SAMEFILE: the two handles on one path are modelled as independent "
             "byte sequences and the disk image is [0,4096) of the index handle ++ [4096,..) of the data handle; A-FULLREAD for init's single 4 KiB read and for FileMessageReader; "
             "binrw header image and protobuf payload encoding uninterpreted (a log entry is assumed never to encode to the empty message); get_start_index (closure-based binary "
             "search) assumed; init on a NEW file establishes nothing in this model (the index handle does not see the data handle's writes). Crash points are C04.",
